@@ -12,6 +12,7 @@ import (
 
 	mail "github.com/wneessen/go-mail"
 
+	"verif/internal/faultio"
 	"verif/internal/refsmtp"
 	"verif/internal/sasl"
 )
@@ -148,4 +149,88 @@ func (o *onceErr) set(e error) {
 		o.err = e
 	}
 	o.mu.Unlock()
+}
+
+// sendRun is one client run against a farm of reference sessions.
+type sendRun struct {
+	Farm     *refsmtp.Farm
+	Client   *mail.Client
+	DialErr  error
+	SendErr  error
+	CloseErr error
+	Panic    any
+	Hung     bool
+	Returned bool
+	Sessions []*refsmtp.Session
+	Conns    []*faultio.TrackConn
+	// ConnClosedAtReturn[i]: whether conn i had been closed at the instant the public call returned
+	ConnClosedAtReturn []bool
+}
+
+const netHost = "mail.verif.example"
+
+// netTimeout is the client timeout used by runSend; checks that inject transport
+// faults (where the client legitimately waits for its own deadline) lower it per call.
+var defaultNetTimeout = 4 * time.Second
+
+// runSend dials and sends msgs through the real client. via: send | dialandsend | withclient.
+func runSend(newCfg func(n int) *refsmtp.Config, wrap func(n int, tc *faultio.TrackConn), opts []mail.Option, msgs []*mail.Msg, via string, tcp bool) *sendRun {
+	return runSendT(newCfg, wrap, opts, msgs, via, tcp, defaultNetTimeout)
+}
+
+func runSendT(newCfg func(n int) *refsmtp.Config, wrap func(n int, tc *faultio.TrackConn), opts []mail.Option, msgs []*mail.Msg, via string, tcp bool, timeout time.Duration) *sendRun {
+	sr := &sendRun{}
+	sr.Farm = &refsmtp.Farm{NewConfig: newCfg, Wrap: wrap, TCP: tcp}
+	base := []mail.Option{mail.WithDialContextFunc(sr.Farm.Dial), mail.WithTimeout(timeout), mail.WithHELO("client.verif.example")}
+	cl, err := mail.NewClient(netHost, append(base, opts...)...)
+	if err != nil {
+		sr.DialErr = fmt.Errorf("NewClient: %w", err)
+		return sr
+	}
+	sr.Client = cl
+	snapClosed := func() {
+		_, cs := sr.Farm.Snapshot()
+		sr.ConnClosedAtReturn = make([]bool, len(cs))
+		for i, c := range cs {
+			sr.ConnClosedAtReturn[i] = c.Closed()
+		}
+	}
+	sr.Hung, sr.Returned = withWatchdog(25*time.Second, func() {
+		defer func() { sr.Panic = recover() }()
+		ctx, cancel := context.WithTimeout(context.Background(), 12*time.Second)
+		defer cancel()
+		switch via {
+		case "dialandsend":
+			err := cl.DialAndSendWithContext(ctx, msgs...)
+			snapClosed()
+			// DialAndSend wraps dial errors
+			if err != nil && strings.HasPrefix(err.Error(), "dial failed") {
+				sr.DialErr = err
+			} else {
+				sr.SendErr = err
+			}
+		case "withclient":
+			sc, err := cl.DialToSMTPClientWithContext(ctx)
+			if err != nil {
+				snapClosed()
+				sr.DialErr = err
+				return
+			}
+			sr.SendErr = cl.SendWithSMTPClient(sc, msgs...)
+			sr.CloseErr = cl.CloseWithSMTPClient(sc)
+			snapClosed()
+		default:
+			sr.DialErr = cl.DialWithContext(ctx)
+			if sr.DialErr != nil {
+				snapClosed()
+				return
+			}
+			sr.SendErr = cl.Send(msgs...)
+			sr.CloseErr = cl.Close()
+			snapClosed()
+		}
+	}, func() { sr.Farm.Shutdown() })
+	sr.Farm.Shutdown()
+	sr.Sessions, sr.Conns = sr.Farm.Snapshot()
+	return sr
 }
